@@ -252,6 +252,8 @@ pub struct World {
     pub level: u32,
     /// names are a function of the object (no two objects ever ask for the same name)
     pub unique_names: bool,
+    /// replicas run with different clock offsets
+    pub skewed: bool,
     pub created: BTreeSet<Obj>,
     /// per replica: uuids this replica has held as recycled/tombstone since it was last refreshed
     pub dead: Vec<BTreeSet<Uuid>>,
@@ -354,6 +356,7 @@ pub struct WorldCfg {
     /// domain level the servers are initialised at
     pub level: u32,
     pub unique_names: bool,
+    pub skew: bool,
     /// replica 0 file backed (pool 4) with this arc size
     pub file_backed: Option<Option<usize>>,
 }
@@ -373,7 +376,7 @@ impl World {
             };
             let qs = srv::mk_server_at(path.as_deref(), 4, arcsize, srv::T0, cfg.level).await.expect("server init");
             // skewed clocks: up to 3 s apart, sometimes exactly equal (lamport ties)
-            let skew = if rng.chance(1, 4) { Duration::ZERO } else { Duration::from_millis(rng.below(3000)) + Duration::from_nanos(rng.below(3)) };
+            let skew = if !cfg.skew || std::env::var("VERIF_NOSKEW").is_ok() { Duration::ZERO } else { Duration::from_millis(rng.below(3000)) + Duration::from_nanos(rng.below(3)) };
             reps.push(Replica { qs: Some(qs), skew, path, arcsize });
         }
         let mut w = World {
@@ -383,6 +386,7 @@ impl World {
             domain: vec!["example.com".to_string(); cfg.replicas],
             level: cfg.level,
             unique_names: cfg.unique_names,
+            skewed: cfg.skew,
             created: BTreeSet::new(),
             dead: vec![BTreeSet::new(); cfg.replicas],
             resurrected: Vec::new(),
